@@ -26,6 +26,7 @@ import (
 	dtlsrrc "github.com/pion/dtls/v3/internal/rrc"
 	dtlsstate "github.com/pion/dtls/v3/internal/state"
 	"github.com/pion/dtls/v3/internal/util"
+	"github.com/pion/dtls/v3/internal/verifhook"
 	"github.com/pion/dtls/v3/pkg/protocol"
 	"github.com/pion/dtls/v3/pkg/protocol/alert"
 	extension13 "github.com/pion/dtls/v3/pkg/protocol/extension/dtls13"
@@ -595,6 +596,7 @@ func (c *Conn) Write(payload []byte) (int, error) {
 	ctx, cancel := c.contextWithClose(c.writeDeadline)
 	defer cancel()
 
+	verifhook.At(c.handshakeConfig, "write.before")
 	err := c.writeApplicationData(ctx, []*dtlsflight.Packet{
 		c.newApplicationDataPacket(payload),
 	})
@@ -778,6 +780,7 @@ func (c *Conn) writePacketsWithResultLocked(
 
 	result := &dtlshandshake.WriteResult{}
 	for _, datagram := range datagrams {
+		verifhook.At(c.handshakeConfig, "write.datagram")
 		if _, err = c.nextConn.WriteToContext(ctx, datagram.raw, rAddr); err != nil {
 			if errors.Is(err, context.Canceled) && c.isConnectionClosed() {
 				return nil, ErrConnClosed
@@ -1355,6 +1358,7 @@ func (c *Conn) readAndBuffer(ctx context.Context) error {
 		ACKs:         summary.receivedACKs,
 		RecordsToACK: c.takePendingACKs(),
 	}
+	verifhook.At(c.handshakeConfig, "recv.rendezvous")
 	select {
 	case c.handshakeRecv <- s:
 		// If the other party may retransmit the flight,
@@ -2806,6 +2810,7 @@ func (c *Conn) close(byUser bool) error {
 	}
 	c.closeLock.Unlock()
 
+	verifhook.At(c.handshakeConfig, "close.unlocked")
 	cancelHandshaker()
 	cancelHandshakeReader()
 
@@ -2840,6 +2845,7 @@ func (c *Conn) setRemoteEpoch(epoch uint16) {
 }
 
 func (c *Conn) commitLocalKeyUpdate(generation *dtlsstate.TrafficGeneration) error {
+	verifhook.At(c.handshakeConfig, "keyupdate.commit")
 	c.writeLock.Lock()
 	defer c.writeLock.Unlock()
 	c.lock.Lock()
